@@ -309,8 +309,34 @@ type regexModel struct {
 
 func (in *Interp) runeMatchTerm(inst *syntax.Inst, c *Term) *Term {
 	tb := in.tb
-	if syntax.Flags(inst.Arg)&syntax.FoldCase != 0 {
-		panic("regexp model: case folding unsupported")
+	fold := (inst.Op == syntax.InstRune || inst.Op == syntax.InstRune1) && syntax.Flags(inst.Arg)&syntax.FoldCase != 0
+	if fold {
+		// ASCII case folding: compare the lower-cased byte with the lower-cased runes
+		lc := in.lowerByte(c)
+		r := tb.False
+		rs := inst.Rune
+		low := func(x rune) rune {
+			if x >= 'A' && x <= 'Z' {
+				return x + 32
+			}
+			return x
+		}
+		if len(rs) == 1 {
+			return tb.Eq(lc, tb.Const(8, uint64(low(rs[0]))))
+		}
+		for i := 0; i+1 < len(rs); i += 2 {
+			lo, hi := rs[i], rs[i+1]
+			if lo >= 0x80 {
+				continue
+			}
+			if hi >= 0x80 {
+				hi = 0x7f
+			}
+			for x := lo; x <= hi; x++ {
+				r = tb.Or(r, tb.Eq(lc, tb.Const(8, uint64(low(x)))))
+			}
+		}
+		return r
 	}
 	switch inst.Op {
 	case syntax.InstRuneAny:
